@@ -47,14 +47,14 @@ type c14Case struct {
 	Ops []c14Op   `json:"ops"`
 }
 
-var c14Names = []string{"alice", "Alice", "ALICE", "bob", "carol", "dave", "admin", "Admin", strings.Repeat("long.account.name-", 8), strings.Repeat("u", 129), strings.Repeat("w", 256), "nobody"}
-var c14Passwords = []string{"", "pw-a", "pw-b", "Pässwörd-ü", "pw-a", "correct horse", "correct horse ", " pw-a", "pw-b\n", "\tpw-b", " "}
+var c14Names = []string{"alice", "Alice", "ALICE", "bob", "carol", "dave", "admin", "Admin", strings.Repeat("long.account.name-", 8), strings.Repeat("u", 129), strings.Repeat("w", 256), "иван", "nobody"}
+var c14Passwords = []string{"", "pw-a", "pw-b", "Pässwörd-ü", "pw-a", "correct horse", "correct horse ", " pw-a", "pw-b\n", "\tpw-b", " ", "pw-€uro", "пароль"}
 
 func genC14(t *rapid.T) c14Case {
 	var c c14Case
 	c.Naming = rapid.SampledFrom([]string{"", "port", "port", "v6port", "plain"}).Draw(t, "naming")
 	for i, n := 0, rapid.IntRange(1, 5).Draw(t, "nusers"); i < n; i++ {
-		c.DB = append(c.DB, c14User{rapid.SampledFrom(c14Names[:11]).Draw(t, "uname"), rapid.SampledFrom(c14Passwords).Draw(t, "upass")})
+		c.DB = append(c.DB, c14User{rapid.SampledFrom(c14Names[:12]).Draw(t, "uname"), rapid.SampledFrom(c14Passwords).Draw(t, "upass")})
 	}
 	db := map[string]string{}
 	for _, u := range c.DB {
@@ -148,7 +148,38 @@ type c14Sent struct {
 	undecodable      bool
 }
 
+// nonLatin1: the text has a character above U+00FF (its UTF-16 code unit has a non-zero high byte).
+func nonLatin1(s string) bool {
+	for _, r := range s {
+		if r > 0xff {
+			return true
+		}
+	}
+	return false
+}
+
+// runC14 gives every verdict failure of a case that involves credentials with characters above U+00FF one signature:
+// the NTLM library the verifier is built on derives its keys from the low bytes of the UTF-16 code units only (listed
+// finding c14/non-latin1-credentials); other failures, and all failures of other cases, keep their own signatures.
 func runC14(c c14Case) *Violation {
+	v := runC14Inner(c)
+	if v == nil {
+		return nil
+	}
+	nl := false
+	for _, u := range c.DB {
+		nl = nl || nonLatin1(u.Name) || nonLatin1(u.Password)
+	}
+	for _, op := range c.Ops {
+		nl = nl || nonLatin1(op.Claimed) || nonLatin1(op.KeyUser) || nonLatin1(op.KeyPass) || nonLatin1(op.Domain)
+	}
+	if nl && (strings.HasPrefix(v.Sig, "c14/valid-exchange-refused") || strings.HasPrefix(v.Sig, "c14/authenticated-without-proof") || strings.HasPrefix(v.Sig, "c14/wrong-username")) {
+		v.Sig = "c14/non-latin1-credentials"
+	}
+	return v
+}
+
+func runC14Inner(c c14Case) *Violation {
 	var users []authconfig.UserConfig
 	db := map[string]string{}
 	for _, u := range c.DB {
